@@ -8,6 +8,7 @@ import (
 
 	sdkmath "cosmossdk.io/math"
 	sdk "github.com/cosmos/cosmos-sdk/types"
+	"github.com/ethereum/go-ethereum/common"
 
 	"mods.irisnet.org/modules/token"
 	tokenkeeper "mods.irisnet.org/modules/token/keeper"
@@ -159,7 +160,40 @@ func (m *tkMod) op(e *lib.Env, st Step) (string, lib.Outcome) {
 			break
 		}
 	}
+	hasContract := false
+	var contract common.Address
+	if tok, err := k.GetToken(e.Ctx, sym); err == nil && len(tok.GetContract()) > 0 {
+		hasContract, contract = true, common.HexToAddress(tok.GetContract())
+	}
+	exists := k.HasSymbol(e.Ctx, sym)
+	evmUser := common.HexToAddress("0x00000000000000000000000000000000000000bb") // not an account of the chain
 	switch st.K {
+	case "deploy": // MsgDeployERC20 by the authority for the most recent token
+		term := "TkOther"
+		if exists {
+			term = lib.App("TkDeploy", lib.B(hasContract))
+		}
+		return term, e.Deliver(&tokenv1.MsgDeployERC20{Symbol: sym, Name: "n" + sym, Scale: 6, MinUnit: "u" + sym, Authority: govAddr})
+	case "swap_to":
+		amt := sdkmath.NewIntFromBigInt(bi(st.N[0]))
+		term := "TkOther"
+		if exists {
+			term = lib.App("TkSwapTo", lib.B(hasContract), lib.ZI(amt), lib.ZI(e.Balance(a0, "u"+sym)))
+		}
+		return term, e.Deliver(&tokenv1.MsgSwapToERC20{Amount: sdk.NewCoin("u"+sym, amt), Sender: a0.String(), Receiver: evmUser.Hex()})
+	case "swap_from":
+		amt := sdkmath.NewIntFromBigInt(bi(st.N[0]))
+		term := "TkOther"
+		if exists {
+			ebal := big.NewInt(0)
+			if hasContract {
+				if b, err := k.BalanceOf(e.Ctx, contract, evmUser); err == nil {
+					ebal = b
+				}
+			}
+			term = lib.App("TkSwapFrom", lib.B(hasContract), lib.ZI(amt), lib.ZB(ebal))
+		}
+		return term, e.Deliver(&tokenv1.MsgSwapFromERC20{WantedAmount: sdk.NewCoin("u"+sym, amt), Sender: sdk.AccAddress(evmUser.Bytes()).String(), Receiver: a0.String()})
 	case "edit":
 		return "TkOther", e.Deliver(&tokenv1.MsgEditToken{Symbol: sym, Name: "renamed", MaxSupply: bi(st.N[0]).Uint64(), Mintable: "true", Owner: a0.String()})
 	case "burn":
@@ -194,6 +228,7 @@ func genTK(r *lib.Rand, h *History, i int) {
 		h.TK = &p
 		h.Via = sweepVia(i)
 		h.Steps = []Step{{"issue", []string{"0"}}, {"mint", []string{"1000"}}, {"issue", []string{fmt.Sprint(1 + r.Intn(5))}}, {"mint", []string{"5"}},
+			{"swap_to", []string{"100"}}, {"deploy", nil}, {"swap_to", []string{"100"}}, {"swap_from", []string{"40"}}, {"swap_from", []string{"100"}}, {"deploy", nil},
 			{"edit", []string{"2000000"}}, {"burn", []string{"10"}}, {"transfer_owner", nil}}
 		return
 	}
@@ -221,7 +256,16 @@ func genTK(r *lib.Rand, h *History, i int) {
 	n := 3 + r.Intn(4)
 	h.Steps = append(h.Steps, Step{"issue", []string{fmt.Sprint(r.Intn(6))}})
 	for i := 0; i < n; i++ {
-		if r.Chance(1, 5) {
+		if r.Chance(1, 4) {
+			switch r.Intn(3) {
+			case 0:
+				h.Steps = append(h.Steps, Step{"deploy", nil})
+			case 1:
+				h.Steps = append(h.Steps, Step{"swap_to", []string{big.NewInt(r.Range(1, 2000)).String()}})
+			case 2:
+				h.Steps = append(h.Steps, Step{"swap_from", []string{big.NewInt(r.Range(1, 2000)).String()}})
+			}
+		} else if r.Chance(1, 5) {
 			switch r.Intn(3) {
 			case 0:
 				h.Steps = append(h.Steps, Step{"edit", []string{big.NewInt(r.Range(2000, 2000000000)).String()}})
